@@ -1,2 +1,15 @@
 """Generated Process / WorkChain / Savable classes are registered here as module attributes so that
 plumpy's DefaultObjectLoader can resolve them by ``pv.gen_classes:<Name>``."""
+
+from plumpy import persistence as _persistence
+
+
+class PvFuture(_persistence.SavableFuture):
+    """An application-defined future class (e.g. one that carries extra behaviour): members of this class keep it."""
+
+
+class QuietError(Exception):
+    """An exception that is falsy (a container-like error with nothing in it): it is an exception all the same."""
+
+    def __len__(self):
+        return 0
